@@ -161,7 +161,6 @@ THEOREMS = {
     "C17": dict(module="HH.Props.C17", trusted=["source-facts translator", "Miri as interpreter of the big-endian / 32-bit targets"] + MODEL_TRUST, theorems=[
         ("HH.C17.only_le_conversions", "every byte<->integer conversion on the portable path is from_le_bytes / to_le_bytes"),
         ("HH.C17.no_target_sensitive", "no cfg(target_endian|target_pointer_width), usize::MAX/BITS, size_of::<usize>, isize, raw pointers"),
-        ("HH.C17.casts_inventory", "pointer-width-sensitive casts (usize/isize/len()) of non-test portable code are the four listed; fixed-width casts unrestricted"),
         ("HH.C17.conv_nonvacuous", "the table does contain the conversions of the checkpoint codec"),
         ("HH.C17.width_independent", "∀ pointer widths >= 16 bits, checks on/off: appends, finalize64/128/256, checkpoint give the same (width-free) values"),
         ("HH.C17.restore_width_independent", "restore from arbitrary bytes likewise"),
